@@ -434,8 +434,8 @@ V("C07", "C07.R3", "c07-timestamp", "shroud/util.py",
   '''        import time
         fp.write("%s %s %s\\n" % (self.comment, fname, time.strftime("%Y")))''', "fire", "time")
 V("C07", "C07.R3", "c07-append-mode", "shroud/util.py",
-  'fp = open(os.path.join(directory, fname), "w")',
-  'fp = open(os.path.join(directory, fname), "a")', "fire", "open")
+  'fp = open(path, "w")',
+  'fp = open(path, "a")', "fire", "open")
 V("C07", "C07.R3", "c07-environ", "shroud/main.py",
   '''        search_path = ["."]''',
   '''        search_path = [os.environ.get("SHROUD_PATH", ".")]''', "fire", "os.environ")
@@ -1929,10 +1929,12 @@ V("C16", "C16.R1", "c16-brief-written-whole", "shroud/util.py",
   '''            output.append(self.doxygen_cont + " \\\\brief %s" % docs["brief"])''', "fire", "brief-lines")
 V("C16", "C16.R1", "c16-helper-appends-whole-text", "shroud/util.py",
   '''        for line in lines:
+            if closer == "*/":
+                line = line.replace("*/", "* /")
             # "@": the text is the user's, a + at its end is not a directive.
             output.append("@" + self.doxygen_cont + " " + tag + line)
             tag = ""''',
-  '''        output.append("@" + self.doxygen_cont + " " + tag + str(text))''', "fire", "lines")
+  '''        output.append("@" + self.doxygen_cont + " " + tag + str(text).replace("*/", "* /"))''', "fire", "lines")
 V("C16", "C16.R1", "c16-silent-splitlines", "shroud/util.py",
   '''        lines = str(text).expandtabs().split("\\n")
         if lines[-1] == "" and (len(lines) > 1 or not tag):
@@ -2237,3 +2239,12 @@ V("C10", "C10.R9", "c10-wrapper-body-two-steps", "shroud/wrapc.py",
                      post_call + final_code + return_code''',
   '''            C_code = pre_call + call_code + post_call_pattern + \\
                      post_call + (final_code + return_code)''', "silent")
+RV("C17", "C17.R19", "c17-unknown-suffix-ignored", "d53e8e3", "unknown-suffix")
+RV("C15", "C15.R11", "c15-file-written-twice", "bda8141", "written-once")
+RV("C16", "C16.R11", "c16-comment-closer-in-text", "e7a1fec", "comment-closer")
+RV("C18", "C18.R12", "c18-void-pointer-result-not-pushed", "f492a30", "pushes-result")
+RV("C03", "C03.R26", "c03-raw-pointer-as-object", "651ff15", "object-format-takes-object")
+RV("C17", "C17.R20", "c17-base-class-is-a-namespace", "a79d91d", "base-is-a-class")
+RV("C17", "C17.R21", "c17-variable-dimension-without-value", "929f2c0", "dimension-without-value")
+RV("C18", "C18.R13", "c18-result-cast-in-c-library", "4ec5a49", "cxx_to_c-for-c-library")
+RV("C14", "C14.R16", "c14-instantiation-options-unused", "257e19b", "targs.options")
